@@ -350,7 +350,7 @@ fn gen_pat(rng: &mut Rng, depth: u32, in_arg: bool) -> Pat {
     }
 }
 
-fn gen_pats(rng: &mut Rng, depth: u32, in_arg: bool) -> Vec<Pat> {
+pub fn gen_pats(rng: &mut Rng, depth: u32, in_arg: bool) -> Vec<Pat> {
     let n = if in_arg { rng.range(0, 4) } else { rng.range(1, 7) };
     (0..n).map(|_| gen_pat(rng, depth, in_arg)).collect()
 }
